@@ -461,12 +461,8 @@ class IntersectionMatcher(AdditiveBiMatcher):
         b = b.replace(b_min)
         a_active = a.is_active()
         b_active = b.is_active()
-        if not (a_active or b_active):
+        if not (a_active and b_active):
             return mcore.NullMatcher()
-        elif not a_active:
-            return b
-        elif not b_active:
-            return a
         elif a is not self.a or b is not self.b:
             return self.__class__(a, b)
         else:
